@@ -55,6 +55,7 @@ from mashumaro.core.meta.helpers import (
     is_type_var_any,
     is_union,
     resolve_type_params,
+    strip_type_wrappers,
     substitute_type_params,
     type_name,
 )
@@ -1200,7 +1201,7 @@ class CodeBuilder:
     ) -> typing.Tuple[str, typing.Optional[str], bool]:
         metadata = self.metadatas.get(fname, {})
         alias = self.__get_field_alias(fname, ftype, metadata, config)
-        real_type = self.get_real_type(fname, ftype)
+        real_type = strip_type_wrappers(self.get_real_type(fname, ftype))
         could_be_none = (
             ftype in (typing.Any, type(None), None)
             or is_type_var_any(real_type)
